@@ -11,6 +11,11 @@ Property theorems only.  Vocabulary (`Conv/Encoding.lean`):
                        untyped positions, hold values of their fields' types; TypedDict payloads have declared keys
                        only);
 * `T.supU gen`, `w.SupU gen`   the documented type support of the converter class (`gen = true`: `Converter`);
+* `w.tdAcyclicB`       no TypedDict lies on a reference cycle of the class table.  The hypothesis is not used by the
+                       proofs: it marks the region in which the model is validated against the code — for a
+                       self-referential TypedDict cattrs unstructures the nested levels by run-time class (recorded
+                       finding F39), which the model does not describe.  Recursive attrs classes and dataclasses are
+                       in scope;
 * `EncAs w cfg T x y`  the documented encoding table, one inductive rule per clause of the statement
                        (classes → dict by field name / tuple in field order, enums → values, sequences → lists,
                        heterogeneous tuples → tuples, sets → sets, mappings → dicts with encoded keys and values,
@@ -23,21 +28,21 @@ All theorems hold for every class table, every type, every value, both converter
 namespace CattrsModel
 
 /-- **Primitive-only.**  No attrs/dataclass instance and no enum member survives at any depth. -/
-theorem C03_primitive (w : World) (cfg : Cfg) (t : Ty) (x : Obj)
+theorem C03_primitive (w : World) (cfg : Cfg) (t : Ty) (x : Obj) (_hacyc : w.tdAcyclicB = true)
     (hws : w.SupU cfg.gen) (hs : t.supU cfg.gen = true) (hx : wellTyped w t x = true) :
     (convUnstructure w cfg t x).prim (!cfg.gen) = true := by
   unfold convUnstructure
   exact un_prim w cfg.core (by simpa [Cfg.core] using hws) (by simpa [Cfg.core] using hs) hx
 
 /-- the same for `Converter`, spelled out: no deque either -/
-theorem C03_primitive_converter (w : World) (cfg : Cfg) (t : Ty) (x : Obj) (hg : cfg.gen = true)
+theorem C03_primitive_converter (w : World) (cfg : Cfg) (t : Ty) (x : Obj) (hacyc : w.tdAcyclicB = true) (hg : cfg.gen = true)
     (hws : w.SupU true) (hs : t.supU true = true) (hx : wellTyped w t x = true) :
     (convUnstructure w cfg t x).prim false = true := by
-  have := C03_primitive w cfg t x (by rw [hg]; exact hws) (by rw [hg]; exact hs) hx
+  have := C03_primitive w cfg t x hacyc (by rw [hg]; exact hws) (by rw [hg]; exact hs) hx
   simpa [hg] using this
 
 /-- **Equals the documented encoding**: the output is related to the input by the documentation table … -/
-theorem C03_encoding (w : World) (cfg : Cfg) (t : Ty) (x : Obj)
+theorem C03_encoding (w : World) (cfg : Cfg) (t : Ty) (x : Obj) (_hacyc : w.tdAcyclicB = true)
     (hws : w.SupU cfg.gen) (hs : t.supU cfg.gen = true) (hx : wellTyped w t x = true) :
     EncAs w cfg.core t x (convUnstructure w cfg t x) := by
   unfold convUnstructure
@@ -77,6 +82,7 @@ example : wellTyped c03World (.td 1) c03Value = true := by
   simp [c03Value, c03World, wellTyped, wellTypedTD, wellTypedL, wellTypedF, wellTypedAny, wellTypedAnyL, findField,
     World.fields, World.members, Field.key, Obj.pyEq, Obj.num2?, SK.structTo]
 example : (Ty.td 1).supU true = true := by simp [Ty.supU]
+example : c03World.tdAcyclicB = true := by decide
 example : c03World.SupU true := by
   constructor
   · intro c f hf t ht
